@@ -5,6 +5,7 @@ import re
 from typing import Any, Dict, List, Optional, Set, Tuple
 
 from .. import heval, sqlrules, sqltok, witness
+from . import oracles as O
 from ..report import AnalysisError, Ctx
 from ..sqlrules import SqlAnalysis, Tmpl, compatible, hole_node, raw_origin, sort_of
 from ..values import Const, NodeV, Str, Sym
@@ -27,6 +28,10 @@ RULE_TEXT = ("one obligation per template (R1,R4,R5), per (visitor, reachable ki
 
 NUMERIC_SQL = r"[+-]?(?:[0-9]+(?:\.[0-9]*)?|\.[0-9]+)(?:e[+-]?[0-9]+)?"
 RAW_OUTSIDE_QUOTES_LANGUAGE = {"Integer": NUMERIC_SQL, "Float": NUMERIC_SQL, "Boolean": r"true|false"}
+
+
+COMPARATOR_SQL = {"Eq": {"=", "==", "IS"}, "NotEq": {"!=", "<>", "IS NOT"}, "Lt": {"<"}, "LtE": {"<="}, "Gt": {">"}, "GtE": {">="},
+                  "In": {"IN"}}
 
 
 def run(ctx: Ctx, env, only_dialect: Optional[str] = None, prop_rules: Optional[Set[str]] = None):
@@ -107,6 +112,18 @@ def check_visitor(ctx: Ctx, env, A: SqlAnalysis, langs, done: Dict[str, Dict[str
                      "odata_query/visitor.py", w)
         else:
             ctx.ok("R2.no-placeholder", f"{vs}|{kind}", "handler present", nontrivial=False)
+
+    # ---- the comparison a Compare node is rendered with is its own comparator's (IS / IS NOT only for eq / ne) -------------------
+    for disc, allowed in COMPARATOR_SQL.items():
+        for t in A.node_tmpls.get(("Compare", disc)) or []:
+            if t.path.outcome != "return" or not t.is_string:
+                continue
+            for x in t.st.toks:
+                if x.kind == "op" and x.depth == 0 and x.text in sqltok.COMPARISONS:
+                    ctx.check(x.text in allowed, "R4.comparison-operator-kept", f"{vs}|Compare[{disc}]|{x.text}",
+                              f"[{vs}] `{O.OPERATOR_KEYWORD[disc]}` is rendered with `{x.text}` in the template `{t.text()}` (under {t.path.cond_str()[:120]}): "
+                              f"that is another comparison than the one written", t.where,
+                              f"a {O.OPERATOR_KEYWORD[disc]} null" if "Null" in t.text() or "NULL" in t.text() or "null" in t.path.cond_str().lower() else None)
 
     # a literal must stand in the SQL with its own value whatever case the user typed its keyword letters in (TRUE, 1E3, ...t...z)
     from .c19 import CASE_VARIANT_KINDS, check_backend_case, check_py_val_case
